@@ -53,11 +53,16 @@ def worker(sh):
             mode = rng.randrange(2)
             sid = sc.newsig()
             null_ok = mode == 1 and not sub and rng.random() < 0.5
-            sc.add('sign %d %d 0 %s %s %d %d %s' % (sid, kid, 'null' if null_ok else alist(ext), idhex(msg), sc.seed(), mode, alist(ext)), 'sign', mode=mode)
+            # the omit-from-keys flag has no meaning in a signing list either: flagged value entries (a caller that reuses its key-derivation
+            # list) must sign exactly like unflagged ones - the verifier's product counts them
+            fl_s = {i for i, v in ext if v is not None and rng.random() < 0.5} if rng.random() < 0.4 else ()
+            fl_p = {i for i, v in ext if v is not None and rng.random() < 0.5} if rng.random() < 0.3 else ()
+            sc.add('sign %d %d 0 %s %s %d %d %s' % (sid, kid, 'null' if null_ok else alist(ext, False, None, fl_s), idhex(msg), sc.seed(), mode, alist(ext, False, None, fl_p)), 'sign', mode=mode)
+            tg = tag + ('/flagged-signing-list' if (fl_s and not null_ok) else '')
             how = 'sign_precomputed' + ('(null list)' if null_ok else '') if mode else 'sign'
-            verify(sid, ext, msg, 1, 'positive/%s%s' % (how, tag))
+            verify(sid, ext, msg, 1, 'positive/%s%s' % (how, tg))
             if msg + R < (1 << 256):
-                verify(sid, ext, msg + R, 1, 'positive/message+r' + tag)
+                verify(sid, ext, msg + R, 1, 'positive/message+r' + tg)
             eq = [(i, v + R if v + R < (1 << 256) else v) for i, v in ext]
             verify(sid, eq, msg, 1, 'positive/list-equal-mod-r')
             # negatives
